@@ -18,11 +18,17 @@
     load <UTXO.db bytes|nil> <UTXO.old bytes|nil> <cfg compressed:0|1>     NewUnspentDb with its retry (Model.UtxoLoad.loadDir
                                      over the retry shape regenerated from the source; nil = no such file)
                                      -> ok <c> <height> <hash> <totalTxs> <dataSize> <k> <rec>*k   (records in insertion order)
+    rdvlen <data> <caps|->           btc.ReadVLen on a reader that serves the i-th Read with at most caps[i]+1 bytes
+                                     (Model.UtxoShared.readVLenRd over the read shape regenerated from the source;
+                                     caps = comma-separated naturals) -> ok <value> <bytes left unread> | err
+    rdrecs <n> <data> <caps|->       the record loop of NewUnspentDb on such a reader -> ok <k> <rec>*k | err
 -/
 import GocoinV.Model.UtxoRec
 import GocoinV.Model.UtxoUndo
 import GocoinV.Model.UtxoLoad
+import GocoinV.Model.UtxoShared
 import GocoinV.Gen.UtxoLoaderFacts
+import GocoinV.Gen.UtxoSharedFacts
 import GocoinV.Base.Proto
 open GocoinV GocoinV.UtxoRec
 
@@ -101,6 +107,9 @@ partial def parseRecs (toks : List String) (acc : Array Bytes) : Option (List By
   | r :: rest => match unhex r with
     | some b => parseRecs rest (acc.push b)
     | none => none
+
+def parseCaps (s : String) : Option (List Nat) :=
+  if s == "-" then some [] else (s.splitOn ",").mapM String.toNat?
 
 def step (last : Bytes) (toks : List String) : Bytes × String :=
   let bad := (last, "bad-op")
@@ -181,6 +190,18 @@ def step (last : Bytes) (toks : List String) : Bytes × String :=
       let l := loadDir Gen.UtxoLoaderFacts.retryShape db old c
       let rs := l.snap.recs.foldl (fun acc r => acc ++ " " ++ hex r) ""
       (last, s!"ok {Proto.boolStr l.snap.compressed} {l.snap.height} {hex l.snap.hash} {l.totalTxs} {l.dataSize} {l.snap.recs.length}{rs}")
+    | _, _, _ => bad
+  | ["rdvlen", d, caps] => match unhex d, parseCaps caps with
+    | some d, some caps => match readVLenRd Gen.UtxoSharedFacts.readShape ⟨d, caps⟩ with
+      | some (v, r) => (last, s!"ok {v} {r.data.length}")
+      | none => (last, "err")
+    | _, _ => bad
+  | ["rdrecs", n, d, caps] => match n.toNat?, unhex d, parseCaps caps with
+    | some n, some d, some caps => match decRecsRd Gen.UtxoSharedFacts.readShape n ⟨d, caps⟩ with
+      | some recs =>
+        let rs := recs.foldl (fun acc r => acc ++ " " ++ hex r) ""
+        (last, s!"ok {recs.length}{rs}")
+      | none => (last, "err")
     | _, _, _ => bad
   | ["snapr", f] => match unhex f with
     | some f => match snapDecode f with
